@@ -28,3 +28,63 @@ package frag
 //@     invariant maxPayloadSize == budget(m, maxSize) && fullPayload == m.Data && len(frags) == fragCount && fresh(frags)
 //@     invariant forall(i, 0, fragID, fragOK(frags[i], m, i, maxPayloadSize, fragCount))
 //@     decreases len(fullPayload) - off
+
+// ---------------------------------------------------------------------------
+// Reassembly. cntA / sumA count the non-nil entries of a reference array and sum
+// a per-object quantity over them; the lemmas are proved by induction (their own
+// obligations) and used as facts in Defragger.Feed.
+
+//@ spec rec func cntA(a, lo, n) = ite(n <= 0, 0, cntA(a, lo, n-1) + ite(a[lo+n-1] == 0, 0, 1))
+//@ spec rec func sumA(a, L, lo, n) = ite(n <= 0, 0, sumA(a, L, lo, n-1) + ite(a[lo+n-1] == 0, 0, L[a[lo+n-1]]))
+//@ lemma CNT_BOUND C05 C03 C14 (a intarray, lo int, n int) induction n: 0 <= cntA(a, lo, n) && cntA(a, lo, n) <= n
+//@ lemma CNT_FULL C05 C03 C14 (a intarray, lo int, n int) induction n: cntA(a, lo, n) == n ==> forall(i, 0, n, a[lo+i] != 0)
+//@ lemma CNT_NIL C05 C03 C14 (a intarray, lo int, n int) induction n: forall(i, lo, lo+n, a[i] == 0) ==> cntA(a, lo, n) == 0
+//@ lemma SUM_NIL C05 C03 C14 (a intarray, L intarray, lo int, n int) induction n: forall(i, lo, lo+n, a[i] == 0) ==> sumA(a, L, lo, n) == 0
+//@ lemma CNT_UPD C05 C03 C14 (a intarray, lo int, n int, j int, v int) induction n: lo <= j && a[j] == 0 && v != 0 ==> cntA(upd(a, j, v), lo, n) == cntA(a, lo, n) + ite(j < lo + n, 1, 0)
+//@ lemma SUM_UPD C05 C03 C14 (a intarray, L intarray, lo int, n int, j int, v int) induction n: lo <= j && a[j] == 0 && v != 0 ==> sumA(upd(a, j, v), L, lo, n) == sumA(a, L, lo, n) + ite(j < lo + n, L[v], 0)
+//@ lemma SUM_NONNEG C05 C03 C14 (a intarray, L intarray, lo int, n int) induction n: forall(j, L[j] >= 0) ==> sumA(a, L, lo, n) >= 0
+//@ lemma SUM_UB C05 C03 C14 (a intarray, L intarray, lo int, n int) induction n: forall(j, 0 <= L[j] && L[j] <= 1099511627776) ==> sumA(a, L, lo, n) <= n * 1099511627776
+//@ lemma SUM_MONO C05 C03 C14 (a intarray, L intarray, lo int, i int, n int) induction n: forall(j, L[j] >= 0) && 0 <= i && i <= n ==> sumA(a, L, lo, i) <= sumA(a, L, lo, n)
+
+//@ spec func dlen() = regionof("protocol.UDPMessage.Data.len")
+//@ spec func fcnt(d) = cntA(row(d.frags), off(d.frags), len(d.frags))
+//@ spec func fsum(d) = sumA(row(d.frags), dlen(), off(d.frags), len(d.frags))
+
+// Representation invariant. While a message is incomplete every stored fragment
+// belongs to it (same packet ID, same count, its own index) and size is the sum of
+// their payload lengths; count is always the number of stored fragments.
+//@ objinv Defragger: len(this.frags) <= 255 && this.count == fcnt(this)
+//@ objinv Defragger: this.count < len(this.frags) ==> this.size == fsum(this)
+//@ objinv Defragger: this.count < len(this.frags) ==> forall(i, 0, len(this.frags), this.frags[i] != nil ==> this.frags[i].PacketID == this.pktID && this.frags[i].FragCount == len(this.frags) && this.frags[i].FragID == i)
+
+// Feed never panics; a message is returned only unfragmented (as is) or when all
+// fragments of one packet ID and count have arrived, and then its payload length is
+// the sum of theirs.
+// proof hints: the counting lemmas instantiated where a fragment is stored
+//@ hook elemstore *protocol.UDPMessage(s, i, v) in (*Defragger).Feed
+//@   use CNT_NIL(row(s), off(s), len(s))
+//@   use SUM_NIL(row(s), dlen(), off(s), len(s))
+//@   use CNT_BOUND(row(s), off(s), len(s))
+//@   use CNT_FULL(row(s), off(s), len(s))
+//@   use CNT_UPD(row(s), off(s), len(s), off(s) + i, v)
+//@   use SUM_UPD(row(s), dlen(), off(s), len(s), off(s) + i, v)
+//@   use CNT_FULL(upd(row(s), off(s) + i, v), off(s), len(s))
+//@   use SUM_NONNEG(upd(row(s), off(s) + i, v), dlen(), off(s), len(s))
+//@   use SUM_NONNEG(row(s), dlen(), off(s), len(s))
+//@   use SUM_UB(row(s), dlen(), off(s), len(s))
+
+//@ func (*Defragger).Feed
+//@   props C05 C03
+//@   requires m != nil && d != nil
+//@   use CNT_BOUND(row(d.frags), off(d.frags), len(d.frags))
+//@   use CNT_FULL(row(d.frags), off(d.frags), len(d.frags))
+//@   ensures old(m.FragCount) <= 1 ==> ret == m
+//@   ensures old(m.FragCount) > 1 && old(m.FragID) >= old(m.FragCount) ==> ret == nil
+//@   ensures ret != nil ==> ret == m
+//@   ensures ret != nil && old(m.FragCount) > 1 ==> m.FragID == 0 && m.FragCount == 1 && d.count == len(d.frags) && len(d.frags) == old(m.FragCount) && d.pktID == m.PacketID
+//@   modifies all(d), all(m), region("elem<*protocol.UDPMessage>"), region("elem<uint8>")
+//@   loop 0
+//@     invariant 0 <= off && off == sumA(row(d.frags), dlen(), off(d.frags), rangeindex + 1) && len(data) == sumA(row(d.frags), dlen(), off(d.frags), len(d.frags))
+//@     invariant forall(i, 0, len(d.frags), d.frags[i] != nil) && fresh(data)
+//@     use SUM_MONO(row(d.frags), dlen(), off(d.frags), rangeindex + 1, len(d.frags))
+//@     use SUM_MONO(row(d.frags), dlen(), off(d.frags), rangeindex + 2, len(d.frags))
